@@ -131,7 +131,7 @@ func oneHistory(c *hx.Ctx, k int, r *rand.Rand) bool {
 				case 0:
 					growth = 0
 				case 1:
-					growth = uint64(r.IntN(1 << 30)) << uint(r.IntN(20))
+					growth = uint64(r.IntN(1<<30)) << uint(r.IntN(20))
 				}
 				if base+growth >= 1<<60 {
 					growth = 0
